@@ -98,9 +98,10 @@ class C03(Prop):
 
     # -- generation --------------------------------------------------------
     def gen_one(self, rng):
-        keys = cc.SAFE_KEYS if rng.random() < 0.85 else gt.KEYS
+        keys = cc.SAFE_KEYS if rng.random() < 0.65 else gt.KEYS
+        # list / tuple leaves too: the same path holds a list in several levels
         sch = cc.schema(rng, depth=rng.choice([2, 3, 3, 4]), width=rng.choice([2, 3, 4]), keys=keys,
-                        kinds="nbis")
+                        kinds=rng.choice(["nbis", "nbislt", "lltis"]))
         p_keep = rng.choice([0.5, 0.7, 0.9])
 
         def inst(kinds):
@@ -112,8 +113,8 @@ class C03(Prop):
             if present[name]:
                 for sfx in rng.sample(cc.SUFFIXES, rng.choice([1, 1, 2, 3])):
                     r = rng.random()
-                    if r < 0.02 and sfx in ("yaml", "yml"):
-                        fs.append([loc, sfx, {"empty": 1}])
+                    if r < 0.025 and sfx in ("yaml", "yml", "json"):
+                        fs.append([loc, sfx, {"empty": 1}])      # empty YAML document / JSON null
                     elif r < 0.03:
                         fs.append([loc, sfx, {"ioerr": 1}])
                     else:
@@ -130,7 +131,8 @@ class C03(Prop):
             fs.append(["projB", rng.choice(cc.SUFFIXES), {"data": inst(FILE_KINDS)}])
         rng.shuffle(fs)
         lazy = rng.random() < 0.5
-        init = {"defaults": None, "overrides": None, "proj": None, "rt": None, "lazy": lazy}
+        init = {"defaults": None, "overrides": None, "proj": None, "rt": None, "lazy": lazy,
+                "tilde": rng.random() < 0.25}
         pre, loads = [], []
         if present["defaults"]:
             if rng.random() < 0.5:
@@ -169,13 +171,32 @@ class C03(Prop):
             loads.append([rng.choice(["load_system", "load_user"])])   # no-op: already loaded
         rng.shuffle(pre)
         rng.shuffle(loads)
+        # re-pointing: after the project / runtime file was loaded, point elsewhere
+        # (and maybe load again): what came from the old location must be forgotten
+        names = [o[0] for o in loads]
+        if "load_project" in names and rng.random() < 0.2:
+            fs.append(["projB", rng.choice(cc.SUFFIXES), {"data": inst(FILE_KINDS)}])
+            i = names.index("load_project")
+            j = rng.randint(i + 1, len(loads))
+            loads.insert(j, ["set_project_location", rng.choice(["projB", "projB", None])])
+            if rng.random() < 0.6:
+                loads.insert(rng.randint(j + 1, len(loads)), ["load_project"])
+        names = [o[0] for o in loads]
+        if "load_runtime" in names and rng.random() < 0.15:
+            sfx2 = rng.choice(cc.SUFFIXES)
+            fs.append(["rtB", sfx2, {"data": inst(FILE_KINDS)}])
+            i = names.index("load_runtime")
+            j = rng.randint(i + 1, len(loads))
+            loads.insert(j, ["set_runtime_path", ["rtB", sfx2]])
+            if rng.random() < 0.6:
+                loads.insert(rng.randint(j + 1, len(loads)), ["load_runtime"])
         # merge=False: some or all loads deferred; the script then ends with
-        # load_shell_env() or an explicit merge()
-        deferred = False
+        # load_shell_env() or an explicit merge() (re-pointing does not merge either)
+        deferred = any(o[0].startswith("set_") for o in loads)
         if rng.random() < 0.45:
             p_def = rng.choice([0.4, 0.7, 1.0])
             for o in loads:
-                if rng.random() < p_def:
+                if o[0].startswith("load_") and rng.random() < p_def:
                     o[0] += "_d"
                     deferred = True
             if rng.random() < 0.2 and loads:
@@ -239,26 +260,32 @@ class C03(Prop):
                 cfg = s.construct()
             except Exception as e:
                 return {"err": type(e).__name__}
+            def snap():
+                return {"view": cc.view_of(cfg), "env": cc.level_view(cfg._env),
+                        "sfx": [cc.sfx_of(cfg._system_path) if cfg._system_found else None,
+                                cc.sfx_of(cfg._user_path) if cfg._user_found else None,
+                                cc.sfx_of(cfg._project_path) if cfg._project_found else None]}
+            mids = []
             for op in case["ops"]:
                 cfg, out = s.try_op(cfg, op)
                 if "err" in out:
-                    return out
-            return {"ok": {"view": cc.view_of(cfg), "env": cc.level_view(cfg._env),
-                           "sfx": [cc.sfx_of(cfg._system_path) if cfg._system_found else None,
-                                   cc.sfx_of(cfg._user_path) if cfg._user_found else None,
-                                   cc.sfx_of(cfg._project_path) if cfg._project_found else None]}}
+                    return dict(out, mids=mids)
+                mids.append(snap())
+            return {"ok": snap(), "mids": mids}
         finally:
             s.close()
 
     def to_coq(self, case, obs):
+        def snap(ok):
+            return "(%s, %s, %s)" % (cc.c_tree(ok["view"]), cc.c_tree(ok["env"]),
+                                     ct.lst([cc.c_optstr(x) for x in ok["sfx"]]))
         if "err" in obs:
             o = "(Err %s)" % ct.err(obs["err"])
         else:
-            ok = obs["ok"]
-            o = "(Ok (%s, %s, %s))" % (cc.c_tree(ok["view"]), cc.c_tree(ok["env"]),
-                                       ct.lst([cc.c_optstr(x) for x in ok["sfx"]]))
-        return "(mk %s %s %s %s)" % (cc.c_fs(case["fs"]), cc.c_init(case["init"]),
-                                     cc.c_ops(case["ops"]), o)
+            o = "(Ok %s)" % snap(obs["ok"])
+        mids = ct.lst([snap(m) for m in obs.get("mids", [])])
+        return "(mk %s %s %s %s %s)" % (cc.c_fs(case["fs"]), cc.c_init(case["init"]),
+                                        cc.c_ops(case["ops"]), o, mids)
 
     # -- statistics --------------------------------------------------------
     def nontrivial(self, case, obs):
@@ -319,7 +346,60 @@ class C03(Prop):
 
     # -- extra checks ------------------------------------------------------
     def extra_checks(self, tier, seed):
-        return [self.check_formats(seed, 60 if tier == "quick" else 600)]
+        return [self.check_formats(seed, 60 if tier == "quick" else 600),
+                self.check_executor(seed, 40 if tier == "quick" else 400)]
+
+    def check_executor(self, seed, n):
+        """At the Executor level the environment must be read once the collection
+        level is in place: a setting only the collection configuration defines is
+        overridden by its environment variable in the config a task sees."""
+        import os
+        import random
+        from invoke import Collection, Executor
+        from invoke.tasks import Task
+        rng = random.Random(seed + 5)
+        res = {"name": "executor-env-after-collection", "evaluations": 0, "failures": [],
+               "note": "test at the Executor level (Program/Executor are not modelled): collection "
+                       "configuration then load_shell_env, as documented"}
+        for _ in range(n):
+            sch = cc.schema(rng, depth=rng.choice([1, 2, 3]), width=3, kinds="s")
+            conf = cc.instance(rng, sch, 0.9)
+            paths = [p for p, v in gt.leaf_paths(conf)]
+            if not paths:
+                continue
+            seen = []
+
+            def body(c):
+                seen.append(gt.deep_view(c.config))
+            coll = Collection("root")
+            coll.add_task(Task(body, name="t"))
+            coll.configure(conf)
+            case = {"fs": [], "init": {"defaults": None, "lazy": False}, "ops": []}
+            s = cc.Session(case)
+            saved = dict(os.environ)
+            try:
+                cfg = s.construct()
+                p = rng.choice(paths)
+                os.environ["INVOKE_" + "_".join(p).upper()] = "from-env"
+                Executor(coll, config=cfg).execute("t")
+                res["evaluations"] += 1
+                got = seen[0]
+                for k in p:
+                    got = got[k]
+                if got != "from-env":
+                    res["failures"].append({"case": {"collection": conf, "env_path": list(p)},
+                                            "what": "task saw %r at %s, the environment says 'from-env' "
+                                                    "(env read before the collection level was loaded?)"
+                                                    % (got, ".".join(p))})
+                    break
+            except Exception as e:
+                res["failures"].append({"case": {"collection": conf}, "what": "Executor raised %r" % (e,)})
+                break
+            finally:
+                os.environ.clear()
+                os.environ.update(saved)
+                s.close()
+        return res
 
     def check_formats(self, seed, n):
         """Format independence (a test: the parsers are not modelled): the same
@@ -329,7 +409,7 @@ class C03(Prop):
         res = {"name": "format-independence", "evaluations": 0, "failures": [],
                "note": "tested, not proved: the same tree through the four real loaders"}
         for _ in range(n):
-            data = gt.jsonable(gt.tree(rng, depth=3, width=3, keys=cc.SAFE_KEYS, kinds=FILE_KINDS,
+            data = gt.jsonable(gt.tree(rng, depth=3, width=3, keys=gt.KEYS, kinds=FILE_KINDS,
                                        allow_empty=False))
             views = []
             for sfx in cc.SUFFIXES:
